@@ -13,11 +13,15 @@ with core.Lock():
     print(msg)
     if not ok:
         sys.exit(1)
-    ok, out, dt = core.lake_build([])
+    ok, out = core.build_harness()
     print(out[-3000:])
     if not ok:
         sys.exit(1)
-    ok, out = core.build_harness()
+    err = core.regenerate_tables(True)
+    if err:
+        print(err)
+        sys.exit(1)
+    ok, out, dt = core.lake_build([])
     print(out[-3000:])
     if not ok:
         sys.exit(1)
